@@ -122,3 +122,10 @@ Proof.
       inversion Ho; subst ops; vm_compute in Hd; inversion Hd; subst ci;
       do 3 eexists; split; [reflexivity | split; [exact Hdec | reflexivity]] | ]). contradiction.
 Qed.
+
+(* a bare name (label, or constant shadowing it) evaluates to its value in ChainMap(constants, labels) *)
+Lemma eval_bare l p consts labels L q z :
+  chain_get consts labels L = Some q -> imm_of l p consts labels (FExpr (EArith (AName L))) = Done z -> z = q.
+Proof.
+  intros Hq. unfold imm_of, eval_here. cbn [eeval aeval]. rewrite Hq. cbn [of_pres]. intro H; inversion H; reflexivity.
+Qed.
